@@ -17,6 +17,7 @@ import (
 	"github.com/ipni/go-libipni/announce"
 	"github.com/ipni/go-libipni/dagsync"
 	"github.com/libp2p/go-libp2p/core/peer"
+	"github.com/multiformats/go-multiaddr"
 
 	"verifharness/fixture"
 	"verifharness/syncfx"
@@ -127,6 +128,7 @@ func (rn *runner) attempt(h int, faults []fault) (res result) {
 	p.ResetLog()
 	w.ResetHooks()
 	w.FailHookAt, w.CancelHookAt = -1, -1
+	badAddr := false
 	byPos := map[pos]string{}
 	for _, f := range faults {
 		if f.Kind == "hook-fail" {
@@ -135,6 +137,10 @@ func (rn *runner) attempt(h int, faults []fault) (res result) {
 		}
 		if f.Kind == "hook-cancels-caller" {
 			w.CancelHookAt = f.At.N
+			continue
+		}
+		if f.Kind == "unusable-address" {
+			badAddr = true
 			continue
 		}
 		byPos[f.At] = f.Kind
@@ -173,10 +179,16 @@ func (rn *runner) attempt(h int, faults []fault) (res result) {
 	p.Publisher.SetRoot(ch.Cids[h])
 	ctx, cancel := w.Ctx()
 	defer cancel()
+	info := p.AddrInfo()
+	if badAddr {
+		// an address that counts as an HTTP address but cannot be turned into a
+		// URL: the sync fails before any request, when the client is created
+		info = peer.AddrInfo{ID: info.ID, Addrs: []multiaddr.Multiaddr{multiaddr.StringCast("/tcp/80/http")}}
+	}
 	pn, pm := vp.Guard(func() {
 		switch rn.m.Kind {
 		case "announce":
-			res.err = w.Sub.Announce(ctx, ch.Cids[h], p.AddrInfo())
+			res.err = w.Sub.Announce(ctx, ch.Cids[h], info)
 			if res.err == nil {
 				// wait for the one event of this sync, up to a virtual horizon
 				select {
@@ -188,9 +200,9 @@ func (rn *runner) attempt(h int, faults []fault) (res result) {
 				}
 			}
 		case "explicit":
-			_, res.err = w.Sub.SyncAdChain(ctx, p.AddrInfo(), dagsync.WithHeadAdCid(ch.Cids[h]))
+			_, res.err = w.Sub.SyncAdChain(ctx, info, dagsync.WithHeadAdCid(ch.Cids[h]))
 		default:
-			_, res.err = w.Sub.SyncAdChain(ctx, p.AddrInfo())
+			_, res.err = w.Sub.SyncAdChain(ctx, info)
 		}
 		synctest.Wait()
 	})
@@ -236,7 +248,7 @@ func ints(l []int) string { return strings.Trim(fmt.Sprint(l), "[]") }
 
 func TestCheck(t *testing.T) {
 	r := vp.New("C04", "fault_enumeration",
-		"modes: {libp2p-HTTP discovery, plain HTTP} x {1, 2 addresses} x {explicit sync with queried head, with explicit head, announce-triggered} x {unsegmented, segment size 1, 2} x {nothing synced before, part of the chain synced before} on a chain of L advertisements. For each mode a fault-free reference run fixes the request positions; then every fault kind (HTTP 400/403/404/500/503, connection closed, declared length longer than body, corrupt body, substituted body, empty body, stalled response, caller cancellation during a request, hook failure per block in segmented mode, caller cancellation from inside each block-hook call i.e. between requests and between segments) at every position, singly (quick) and in pairs within one attempt and across attempt and retry (thorough), each followed by a fault-free retry on the same subscriber. Non-trivial: every faulted run. Distinct = distinct (mode, fault script).",
+		"modes: {libp2p-HTTP discovery, plain HTTP} x {1, 2 addresses} x {explicit sync with queried head, with explicit head, announce-triggered} x {unsegmented, segment size 1, 2} x {nothing synced before, part of the chain synced before} on a chain of L advertisements. For each mode a fault-free reference run fixes the request positions; then every fault kind (HTTP 400/403/404/500/503, connection closed, declared length longer than body, corrupt body, substituted body, empty body, stalled response, caller cancellation during a request, hook failure per block in segmented mode, caller cancellation from inside each block-hook call i.e. between requests and between segments, an address for which no client can be created) at every position, singly (quick) and in pairs within one attempt and across attempt and retry (thorough), each followed by a fault-free retry on the same subscriber. Non-trivial: every faulted run. Distinct = distinct (mode, fault script).",
 		"stalled responses and time-outs run in virtual time inside a synctest bubble; the horizon for 'no event will come' is 30 virtual minutes",
 		"a fault that the client masks (address fail-over, legacy path fallback) must leave all observations equal to the fault-free reference",
 		"the stream-reset retry branch needs a libp2p stream transport and is not driven",
@@ -327,6 +339,8 @@ func runMode(t *testing.T, r *vp.Recorder, m mode, thorough bool) {
 			singles = append(singles, fault{pos{"hook", -1, i}, "hook-fail"})
 		}
 	}
+	// the caller (or the announcement) names an address no client can be made for
+	singles = append(singles, fault{pos{"client", -1, 0}, "unusable-address"})
 	if m.Kind != "announce" {
 		// the caller cancels while a block hook runs, i.e. between requests (and,
 		// in segmented mode, between segments): the sync fails, or it had already
